@@ -224,3 +224,111 @@ def sivref_second_opinion(ctx):
     exe = os.path.join(d, "h_sivref")
     ctx.sh(["gcc", "-O1", "-g", "-I" + VERIF + "/harness", "-I" + VERIF + "/model", VERIF + "/harness/h_sivref.c", ctx.model_obj()] + objs + ["-o", exe])
     ctx.run_jobs(batch_jobs(ctx, exe, "sivref", ["--p1", ctx.q(40, 70), "--p2", ctx.q(1, 3)], 4))
+
+
+# ---------------------------------------------------------------------------------- C10 / C11 / C12
+
+def hashref_objs(ctx):
+    """tools/hashref/{hash,state,hmac}.c compiled as they are (second opinion); [] if absent."""
+    d = os.path.join(ctx.scratch, "hashref")
+    if os.path.isdir(d):
+        return [os.path.join(d, f) for f in sorted(os.listdir(d)) if f.endswith(".o")]
+    os.makedirs(d, exist_ok=True)
+    objs = []
+    for f in ("hash.c", "state.c", "hmac.c"):
+        src = "%s/tools/hashref/%s" % (REPO, f)
+        if not os.path.exists(src):
+            ctx.info.append("tools/hashref/%s missing: bundled-reference second opinion skipped" % f)
+            return []
+        o = os.path.join(d, f[:-2] + ".o")
+        ctx.sh(["gcc", "-c", "-O2", "-w", "-I" + REPO + "/tools/hashref", src, "-o", o])
+        objs.append(o)
+    return objs
+
+
+def run_hash(ctx, builds, args, nb, hname, timeout=1800):
+    refs = hashref_objs(ctx)
+    jobs = []
+    for b in builds:
+        use_ref = refs and not b["hflags"]      # uninstrumented reference objects only in uninstrumented harnesses
+        exe = ctx.harness(hname + "-" + b["tag"], "h_hash.c", b["lib"], cc=b["cc"], flags=b["hflags"],
+                          defs=(["HAVE_HASHREF"] if use_ref else []), ldflags=(refs if use_ref else []))
+        jobs += batch_jobs(ctx, exe, b["tag"], args, nb)
+    ctx.run_jobs(jobs, timeout=timeout)
+
+
+@check("C10", "exploration", floor=500)
+def c10(ctx):
+    load_replay(ctx)
+    ctx.model_selfcheck()
+    N, reps, NL = ctx.q((200, 1, 24), (600, 4, 200))
+    builds = build_set(ctx, ctx.q(["prod", "gcc-O0", "gcc-O2", "clang-O2", "clang-O3", "asan-gcc", "msan"],
+                                  ["prod"] + MATRIX + ["asan-gcc", "asan-clang", "msan"]))
+    run_hash(ctx, builds, ["--mode", "hash", "--p1", N, "--p2", reps, "--p3", NL], ctx.q(4, 16), "h_hash")
+    ctx.rule = ("every length 0..N x 6 byte classes (x repetitions), placement (end-guard/start-guard/mid+canary) and alignment offset 0..7 "
+                "rotating with the index, NULL for length 0 in half of the cases; random long lengths (to 64 KiB; thorough: one 4 MiB message); "
+                "same case list on every build. class = (length | long bucket, byte class, placement, offset). Oracle: model of the README MDPH "
+                "construction over the bit-serial TinyJAMBU-256 NLFSR; tools/hashref compiled as is as second opinion.")
+    ctx.exhaustive = False
+    ctx.assumptions += ["message contents are sampled (6 byte classes), lengths above the dense window are sampled"]
+
+
+@check("C11", "exploration", floor=5000)
+def c11(ctx):
+    load_replay(ctx)
+    ctx.model_selfcheck()
+    N, NZ, NR = ctx.q((14, 9, 3000), (20, 11, 60000))
+    builds = build_set(ctx, ctx.q(["prod", "asan-gcc", "msan"], ["prod", "gcc-O0", "clang-O3", "asan-gcc", "asan-clang", "msan"]))
+    run_hash(ctx, builds, ["--mode", "stream", "--p1", N, "--p2", NZ, "--p3", NR], 16, "h_hash-s")
+    ctx.rule = ("(a) ALL 2^(n-1) compositions of every length n <= N into update calls (exhaustive), state object pre-filled with junk; "
+                "(b) for n <= NZ the same with a zero-length update (NULL, then non-NULL) at every gap; (c) random chunkings of messages up to 8 KiB "
+                "with sizes from {0..18,30..33,47..49,63..65,100,1000}; (d) random interleaved histories of init/reinit/update/finalize/free/overwrite-with-"
+                "stale-copy over 4 state objects, each judged against a shadow concatenation (one-shot + model). class = (n, composition mask) or history index.")
+    ctx.exhaustive = False
+    ctx.extra_cov["exhaustive_subspace"] = "all compositions of n <= %d (sum 2^(n-1) = %d sequences) on every build" % (N, 2 ** N - 1)
+    ctx.assumptions += ["finalized states are never continued without reinit (unspecified)"]
+
+
+@check("C12", "exploration", floor=500)
+def c12(ctx):
+    load_replay(ctx)
+    ctx.model_selfcheck()
+    K, NR = ctx.q((200, 150), (260, 3000))
+    builds = build_set(ctx, ctx.q(["prod", "gcc-O2", "asan-gcc", "msan"], ["prod"] + MATRIX + ["asan-gcc", "asan-clang", "msan"]))
+    run_hash(ctx, builds, ["--mode", "hmac", "--p1", K, "--p3", NR], ctx.q(8, 16), "h_hash-m")
+    ctx.rule = ("every key length 0..K (NULL for 0 in half the cases) x message lengths {0,1,15,16,17,31,32,33,63,64,65,127,128,200} + random "
+                "(key <= 300, message <= 4096); per case: one-shot vs RFC 2104 model, incremental with random chunking and the key at a different "
+                "address for finalize, reinit after an abandoned prefix, reinit after finalize. class = (keylen, mlen, byte class).")
+    ctx.exhaustive = False
+
+
+# ---------------------------------------------------------------------------------- C13 / C14
+
+@check("C13", "exploration", floor=50)
+def c13(ctx):
+    load_replay(ctx)
+    ctx.model_selfcheck()
+    NS = ctx.q(160, 1600)
+    builds = build_set(ctx, ctx.q(["prod", "asan-gcc", "msan"], ["prod", "gcc-O0", "gcc-O2", "clang-O3", "asan-gcc", "asan-clang", "msan"]))
+    run_harness_on(ctx, "h_kdf.c", builds, ["--mode", "hkdf", "--p1", NS], 16, timeout=3000)
+    ctx.rule = ("one case = one (key, salt, info) stream: lengths from {0(NULL),1,31,32,33,64,65,100}^3 (first 512 indices, enumerated) then random; "
+                "the model's RFC 5869 output (8160 bytes for every 4th stream in quick, every stream in thorough; 700 otherwise) is computed once and the "
+                "library judged on 11-18 one-shot lengths (0..300, 32k-1/32k/32k+1, 8159, 8160), 6 refused lengths {8161, 8192, 10000, 65536, 2^32+5, SIZE_MAX} "
+                "(return -1, canary buffer untouched), empty-salt == 32 zero bytes, and 2-6 random partitions into expand calls with sizes "
+                "{0,1,5,31,32,33,64,100,1000,2500} running past the cap (return codes, bytes up to 8160 == model, every byte past it zero, calls after exhaustion). "
+                "class = (keylen, saltlen, infolen, byte class).")
+    ctx.exhaustive = False
+
+
+@check("C14", "exploration", floor=100)
+def c14(ctx):
+    load_replay(ctx)
+    ctx.model_selfcheck()
+    D, NR = ctx.q((100, 150), (160, 4000))
+    builds = build_set(ctx, ctx.q(["prod", "asan-gcc", "msan"], ["prod", "gcc-O0", "gcc-O2", "clang-O3", "asan-gcc", "asan-clang", "msan"]))
+    run_harness_on(ctx, "h_kdf.c", builds, ["--mode", "pbkdf2", "--p1", D, "--p3", NR], 16, timeout=3000)
+    ctx.rule = ("every outlen 0..D with password lengths {0,1,63,64,65,100,200}, salt lengths 0..40 and counts {0,1,2,3,4,5,10} rotating; "
+                "outputs 8165, 8200, 20000, 8192, 8223 bytes (block index > 255); counts {100,1000,4096} with short outputs; random parameter sets; "
+                "output buffer sized exactly and abutting a guard page (or canaries); relational: count 0 == count 1, shorter output is a prefix. "
+                "class = (outlen, pwlen, saltlen, count). Oracle: RFC 8018 model over the model HMAC.")
+    ctx.exhaustive = False
